@@ -135,3 +135,22 @@ add("C15.defined_set","VH_c15_defined_set",SRV,sc+["server/c15.go"],{"params":{"
 add("C12.llgr","VH_c12_llgr",SRV,sc+["server/c12.go"],{"params":{},"unwind":4200,"harness_s":600},{"params":{},"unwind":4200,"harness_s":1200},expect_reach=["end"],fixed_clock=True,bounds="real handleFSMMessage long-lived GR branch, markLLGRStale / postFilterpath, the per-family timer goroutines and the real management loop (cooperative schedule, virtual clock): IPv4 always and IPv6 symbolically in the peer's LLGR capability, long-lived time 1..2 s, 3 routes (plain, NO_LLGR, IPv6), one LLGR-capable and one plain observer peer")
 add("C07.hold_restart","VH_c07_hold_restart",SRV,sc+["server/c07.go"],expect_reach=["end"],bounds="real fsmHandler.established with its receive and send goroutines on the virtual clock: a KEEPALIVE or UPDATE arriving 1..2 s into the session, then silence; hold time 3 s, keepalive interval 1 s")
 add("C02.server_sources","VH_c02_server_sources",SRV,sc+["server/c02.go"],{"params":{"steps":2},"unwind":4200,"harness_s":600},{"params":{"steps":3},"unwind":4200,"harness_s":2400},expect_reach=["two","ended"],fixed_clock=True,bounds="real BgpServer.handleFSMMessage / deleteNeighbor: 2 eBGP sources, one prefix, every history of 2 (quick) / 3 events over {announce (AS_PATH length 1..2, symbolic second AS incl. the local AS), withdraw, session lost, peer deleted} x source")
+
+# ---- thorough tiers of the history harnesses are split into instances pinned on the first choice
+def split_thorough(base_id, pin, n):
+    base=[h for h in H if h["id"]==base_id][0]
+    t=base["tiers"]["thorough"]
+    for k in range(n):
+        h=json.loads(json.dumps(base))
+        h["id"]="%s.%s%d"%(base_id,pin.split("#")[0][0],k)
+        h["tiers"]={"quick":{"skip":True},"thorough":t}
+        h["pins"]=dict(h.get("pins") or {}); h["pins"][pin]=k
+        h["bounds"]=h.get("bounds","")+"; thorough-tier instance with the first %s pinned to %d"%(pin.split("#")[0],k)
+        H.append(h)
+    base["tiers"]["thorough"]={"skip":True}
+split_thorough("C01.server_flaps","event#0",6)
+split_thorough("C01.server_addpath","source#0",3)
+split_thorough("C02.server_sources","event#0",4)
+split_thorough("C17.server_rtc","origin_as#0",2)
+add("C02.best_stream","VH_c02_best_stream",SRV,sc+["server/c02.go"],{"params":{"steps":2},"unwind":4200,"harness_s":600},{"params":{"steps":3},"unwind":4200,"harness_s":2400},expect_reach=["matches","empty"],fixed_clock=True,bounds="real BgpServer.watch(WatchBestPath) with the management loop and the watcher's pump goroutine (cooperative schedule): 2 eBGP sources x 2 prefixes, every history of 2 (quick) / 3 events over {announce (AS_PATH length 1..2), withdraw, session lost}; notifications applied in order versus GetBestPathList")
+split_thorough("C02.best_stream","source#0",2)
